@@ -88,6 +88,9 @@ func (e *tallEngine) genCase(seed uint64) *TallCase {
 	if r.Pct(40) {
 		run = 31 + uint(r.Intn(8))
 	}
+	if e.prop == "C06" || e.prop == "C09" {
+		run = 1 + uint(r.Intn(int(12-g))) // these two checks are about the map forest (see below)
+	}
 	top := g + run + 1
 	var hi uint64
 	if top < 62 {
@@ -115,7 +118,7 @@ func (e *tallEngine) genCase(seed uint64) *TallCase {
 	// MapPollard.moveUpDescendants visits 2^row positions when a node of that row
 	// is lifted over an empty root (it descends whether or not a node is stored), so
 	// the map forest only joins when the run stays below row 13 (DESIGN 4.16).
-	c.Forest = r.Pct(60) && g+run <= 12
+	c.Forest = (r.Pct(60) || e.prop == "C06" || e.prop == "C09") && g+run <= 12
 	blockSize := 1 << g
 	n := 3 + r.Intn(10)
 	for i := 0; i < n; i++ {
